@@ -45,16 +45,17 @@ ASSUMPTIONS = ["migen tracer shim (names only); every class runs with the shim o
                "quantifier; Memory(name=)/Instance(name=)/post-construction name_override accept them unchecked and they are "
                "emitted verbatim: recorded under observed.api_boundary, not judged",
                "reproducibility = same script, fresh interpreter, different PYTHONHASHSEED (object addresses vary with it too)"]
-FLOORS = {"quick": {"names_checked": 150000, "namespaces_built": 8000, "contract_evaluations": 400000, "conversions": 250,
-                    "texts_compared": 250, "request_orders": 8000, "declarations_matched": 10000, "n_override_kinds": 6,
-                    "n_hierarchy_depths": 5, "n_shim": 2, "n_reserved_words_used": 248, "helper_signals_named": 300,
-                    "memories_named": 500, "instances_named": 500, "equal_base_name_groups": 2000},
-          "thorough": {"names_checked": 2000000, "namespaces_built": 100000, "contract_evaluations": 5000000, "conversions": 4000,
-                       "texts_compared": 2500, "request_orders": 100000, "declarations_matched": 150000, "n_override_kinds": 6,
-                       "n_hierarchy_depths": 5, "n_shim": 2, "n_reserved_words_used": 248, "helper_signals_named": 4000,
-                       "memories_named": 6000, "instances_named": 6000, "equal_base_name_groups": 25000}}
+FLOORS = {"quick": {"names_checked": 2000000, "namespaces_built": 20000, "contract_evaluations": 4000000, "conversions": 600,
+                    "texts_compared": 250, "fresh_process_runs": 150, "request_orders": 20000, "declarations_matched": 15000,
+                    "n_override_kinds": 8, "n_hierarchy_depths": 5, "n_shim": 2, "n_reserved_words_used": 248,
+                    "helper_signals_named": 3000, "memories_named": 2000, "instances_named": 2000, "equal_base_name_groups": 3000},
+          "thorough": {"names_checked": 30000000, "namespaces_built": 300000, "contract_evaluations": 60000000, "conversions": 10000,
+                       "texts_compared": 2500, "fresh_process_runs": 1200, "request_orders": 300000, "declarations_matched": 250000,
+                       "n_override_kinds": 8, "n_hierarchy_depths": 5, "n_shim": 2, "n_reserved_words_used": 248,
+                       "helper_signals_named": 50000, "memories_named": 30000, "instances_named": 30000,
+                       "equal_base_name_groups": 50000}}
 SHARD_TIMEOUT = {"quick": 900, "thorough": 3000}
-N_SAMPLES = 5
+N_SAMPLES = 8
 
 VERIF_ROOT = os.path.dirname(os.path.dirname(os.path.abspath(__file__)))
 PY = "/venv/bin/python"
@@ -80,7 +81,7 @@ def plan(tier, seed):
                           "shim": k % 2 == 1})
         n = z["shards"]
         for i in range(n):
-            shards.append({"id": "%s%02d" % (prof, i), "cls": prof, "cases": cases[i::n]})
+            shards.append({"id": "h-%s%02d" % (prof, i), "cls": prof, "cases": cases[i::n]})
     det = []
     for k in range(z["det"]):
         r = rng_for(seed, "C02/det", k)
@@ -89,14 +90,14 @@ def plan(tier, seed):
                     "designs": [{"profile": DET_PROFILES[(k + i) % len(DET_PROFILES)], "shim": (k + i) % 2 == 0} for i in range(4)]})
     n = z["det_shards"]
     for i in range(n):
-        shards.append({"id": "determinism%02d" % i, "cls": "determinism", "cases": det[i::n]})
+        shards.append({"id": "r-determinism%02d" % i, "cls": "determinism", "cases": det[i::n]})
     dso = [{"seed": "%d/C02/detso/%d" % (seed, k), "level": "det", "k": k, "template": "special_outs",
             "hashseeds": ["0", "0", "1", str(rng_for(seed, "C02/detso", k).randrange(2, 1 << 31))], "designs": [{"shim": k % 2 == 0}]}
            for k in range(z["detso"])]
     n = z["detso_shards"]
     for i in range(n):
-        shards.append({"id": "detspecials%02d" % i, "cls": "determinism_special_outs", "cases": dso[i::n]})
-    shards.append({"id": "boundary00", "cls": "boundary",
+        shards.append({"id": "r-detspecials%02d" % i, "cls": "determinism_special_outs", "cases": dso[i::n]})
+    shards.append({"id": "z-boundary00", "cls": "boundary",
                    "cases": [{"seed": "%d/C02/boundary/%d" % (seed, k), "level": "boundary", "k": k} for k in range(len(BOUNDARY))]})
     return shards
 
@@ -508,7 +509,7 @@ RUNNERS = {"ns": run_ns_case, "conv": run_conv_case, "det": run_det_case, "bound
 
 
 def run_shard(shard):
-    col = Collector(shard["cls"], max_samples=1)
+    col = Collector(shard["cls"], max_samples=1 if shard["id"].endswith("00") else 0)    # one sample per class in evidence
     for case in shard["cases"]:
         col.guard(case, RUNNERS[case["level"]], col, case)
         L.MON.drain()
